@@ -14,6 +14,8 @@ property module, which records them as events / mechanism keys (DESIGN.md sectio
 import sys
 
 EPS = 1e-9
+FULL_PIVOTS = 400
+SPARSE = 64
 _cur = None          # record of the network_simplex call in progress
 _attached = False
 
@@ -158,6 +160,11 @@ def _on_pivot(loc):
     if rec is None:
         return
     rec.pivots += 1
+    # bounded monitoring cost: every pivot up to FULL_PIVOTS, afterwards every SPARSE-th (a call that pivots
+    # thousands of times on these instance sizes is on its way to the step budget anyway)
+    if rec.pivots > FULL_PIVOTS and rec.pivots % SPARSE:
+        rec.prev = (loc.get("entering"), loc.get("first"), loc.get("second"))
+        return
     _tick(rec, "ns.l2.pivot-checked")
     bad = check_basis(loc, rec)
     if bad:
